@@ -2,28 +2,10 @@
 Totality of the OpenMetrics parser model, part 4: from the text of a line to the hypotheses of `assemble_safe`.
 -/
 import PromVerif.Lemmas.OMFold3
+import PromVerif.Lemmas.OMNh
 
 namespace PromVerif.Lemmas.OM
 open PromVerif.Py PromVerif.Model.ParseCore PromVerif.Model.Validation PromVerif.Model.OMParse PromVerif.Generated.OMParse
-
-/-- every successful result satisfies `Q` -/
-def Post {α : Type} (Q : α → Prop) (x : PyM α) : Prop := ∀ a, x = .ok a → Q a
-
-theorem post_bind {α β : Type} {Q : β → Prop} (x : PyM α) (f : α → PyM β) (h : ∀ a, Post Q (f a)) : Post Q (x >>= f) := by
-  intro b hb
-  cases x with
-  | error e => cases hb
-  | ok a => exact h a b hb
-
-theorem post_pure {α : Type} {Q : α → Prop} (a : α) (h : Q a) : Post Q (pure a : PyM α) := by
-  intro b hb; cases hb; exact h
-
-theorem post_throw_bind {α β : Type} {Q : β → Prop} (e : PyErr) (f : α → PyM β) : Post Q ((throw e : PyM α) >>= f) := by
-  intro b hb; cases hb
-
-theorem post_ite {α : Type} {Q : α → Prop} {c : Prop} [Decidable c] {a b : PyM α} (ha : Post Q a) (hb : Post Q b) :
-    Post Q (if c then a else b) := by
-  split <;> assumption
 
 /-- what `_parse_sample` returns has labels and a value -/
 theorem parseSample_plain (P : Params) (text : Str) : Post Plain (parseSample P text) := by
@@ -43,32 +25,34 @@ theorem parseSample_plain (P : Params) (text : Str) : Post Plain (parseSample P 
       apply post_bind; intro y
       exact post_pure _ ⟨rfl, rfl⟩
 
-theorem hist_suffixes_present : ∃ suff, lookupTable tHistogram typeSuffixes = some suff := by
-  have : (lookupTable tHistogram typeSuffixes).isSome = true := by decide
-  exact Option.isSome_iff_exists.mp this
+theorem hist_suffixes_present : ∃ suff, lookupTable tHistogram typeSuffixes = some suff ∧ suff.contains sBucket = true := by
+  have h1 : (lookupTable tHistogram typeSuffixes).isSome = true := by decide
+  obtain ⟨suff, hs⟩ := Option.isSome_iff_exists.mp h1
+  refine ⟨suff, hs, ?_⟩
+  have h2 : ((lookupTable tHistogram typeSuffixes).getD []).contains sBucket = true := by decide
+  rw [hs] at h2; exact h2
 
-/-- a line that the detector does not take for a native histogram: `_parse_nh_sample` returns `None` or raises
-ValueError -/
-theorem parseNhLine_ok (P : Params) (line : Str) (hnh : ∀ p, nhDetect line ≠ .ok (some p)) :
-    parseNhLine P line = .ok none ∨ parseNhLine P line = .error .valueError := by
-  obtain ⟨suff, hs⟩ := hist_suffixes_present
+/-- the native-histogram reading of a line: nothing but ValueError; a result has no value and a name that does not
+end in `_bucket` (one of the histogram suffixes the rule excludes) -/
+theorem parseNhLine_spec (P : Params) (hd : DigitsNotSpace P) (line : Str) :
+    Safe (parseNhLine P line) ∧ ∀ s, parseNhLine P line = .ok (some s) → s.value = none ∧ endsWith sBucket s.name = false := by
+  obtain ⟨suff, hs, hb⟩ := hist_suffixes_present
   unfold parseNhLine
   rw [hs]
   dsimp only
-  unfold parseNhSample
-  cases hd : nhDetect line with
-  | error e =>
-    right
-    have := nhDetect_safe line e hd
-    subst this; rfl
-  | ok o =>
-    cases o with
-    | none => left; rfl
-    | some p => exact absurd hd (hnh p)
+  obtain ⟨h1, h2⟩ := parseNhSample_spec P hd line suff
+  refine ⟨h1, fun s h => ?_⟩
+  obtain ⟨hv, hn⟩ := h2 _ h s rfl
+  refine ⟨hv, ?_⟩
+  unfold endsWithAny at hn
+  rw [List.any_eq_false] at hn
+  have := hn sBucket (by simpa using hb)
+  simpa using this
 
-/-- the tokenised form of a line outside the finding classes -/
-theorem parseLine_ok (P : Params) (k : Bool) (line : Str) (hnh : ∀ p, nhDetect line ≠ .ok (some p))
-    (hs : ∀ s, parseSample P line = .ok s → NotHuge P s ∧ TsClass k s.ts) : LineOK P k (parseLine P line) := by
+/-- the tokenised form of a line -/
+theorem parseLine_ok (P : Params) (hd : DigitsNotSpace P) (line : Str)
+    (hnh : ∀ s, parseNhLine P line = .ok (some s) → endsWith sGsum s.name = false)
+    (hs : ∀ s, parseSample P line = .ok s → TsOK P s.ts) : LineOK P (parseLine P line) := by
   unfold parseLine
   split
   · trivial
@@ -83,19 +67,21 @@ theorem parseLine_ok (P : Params) (k : Bool) (line : Str) (hnh : ∀ p, nhDetect
             · rfl
             · trivial
         · rfl
-      · exact ⟨parseNhLine_ok P line hnh, parseSample_safe P line,
-          fun s h => ⟨parseSample_plain P line s h, (hs s h).1, (hs s h).2⟩⟩
+      · obtain ⟨h1, h2⟩ := parseNhLine_spec P hd line
+        exact ⟨h1, fun s h => ⟨(h2 s h).1, (h2 s h).2, hnh s h⟩, parseSample_safe P line,
+          fun s h => ⟨parseSample_plain P line s h, hs s h⟩⟩
 
-/-- **the OpenMetrics parser model is total** on every text whose lines are not shaped like native histograms, whose
-sample timestamps are all of one form (`k`), and whose integer values fit a float -/
-theorem omParse_safe (P : Params) (k : Bool) (text : Str)
-    (hnh : ∀ line ∈ docLines text, ∀ p, nhDetect line ≠ .ok (some p))
-    (hs : ∀ line ∈ docLines text, ∀ s, parseSample P line = .ok s → NotHuge P s ∧ TsClass k s.ts) :
+/-- **the OpenMetrics parser model is total** on every text: for all number parameters and regex classes with
+`float("NaN")` a NaN and no whitespace digit, provided no native-histogram sample's name ends in `_gsum` and every
+`Timestamp` of a sample converts to float -/
+theorem omParse_safe (P : Params) (hnan : NaNLiteral P) (hd : DigitsNotSpace P) (text : Str)
+    (hnh : ∀ line ∈ docLines text, ∀ s, parseNhLine P line = .ok (some s) → endsWith sGsum s.name = false)
+    (hs : ∀ line ∈ docLines text, ∀ s, parseSample P line = .ok s → TsOK P s.ts) :
     Safe (omParse P text) := by
   unfold omParse
-  apply assemble_safe P k
+  apply assemble_safe P hnan
   intro l hl
   obtain ⟨line, hline, rfl⟩ := List.mem_map.mp hl
-  exact parseLine_ok P k line (hnh line hline) (hs line hline)
+  exact parseLine_ok P hd line (hnh line hline) (hs line hline)
 
 end PromVerif.Lemmas.OM
